@@ -225,6 +225,43 @@ def build_cases(tier, seed, rng):
                 tr = ("union", ("range", lo, min(lo + 1, hi)), ("range", lo, hi))
             if legal(tr, allint):
                 out.append(("INTEGER", [[(tr, False, None)]], "width-boundary"))
+    # a parent that is already a union of disjoint pieces, narrowed by a range that cuts into two of them -- on the same
+    # node, through a reference, or as an intersection; in the small universe and with pieces of different widths
+    plans = []
+    for (a1, b1, a2, b2) in [(-1, 0, 2, 4), (-1, 1, 3, 4), (0, 1, 3, 4), (-1, -1, 1, 4), (0, 10, 20, 300), (-300, -20, 5, 70000), (1, 100, 200, 255)]:
+        span = range(a1, b2 + 1) if b2 - a1 < 12 else [a1, a1 + 1, b1 - 1, b1, a2, a2 + 1, b2 - 1, b2, (a1 + b1) // 2, (a2 + b2) // 2]
+        for lo in span:
+            for hi in span:
+                if a1 < lo <= b1 and a2 <= hi < b2 or a1 <= lo <= b1 and a2 <= hi < b2 and lo > a1 or (a1 < lo <= b1 and a2 <= hi <= b2):
+                    plans.append(((a1, b1, a2, b2), lo, hi))
+    rng.shuffle(plans)
+    for (a1, b1, a2, b2), lo, hi in plans[: (45 if quick else 100000)]:
+        par = ("union", ("range", a1, b1), ("range", a2, b2))
+        cut = ("range", lo, hi)
+        how = rng.choice(["node", "ref", "ref2", "inter", "inter-rev"])
+        if not legal(par, allint) or not legal(cut, C.eval_tree(par, allint)):
+            continue
+        if how == "node":
+            out.append(("INTEGER", [[(par, False, None), (cut, False, None)]], "split-parent"))
+        elif how == "ref":
+            out.append(("INTEGER", [[(par, False, None)], [(cut, rng.random() < 0.2, None)]], "split-parent"))
+        elif how == "ref2":
+            out.append(("INTEGER", [[(par, False, None)], [], [(cut, False, None)]], "split-parent"))
+        else:
+            tr = ("inter", par, cut) if how == "inter" else ("inter", cut, par)
+            if legal(tr, allint):
+                out.append(("INTEGER", [[(tr, False, None)]], "split-parent"))
+    for (a1, b1, a2, b2), lo, hi in [p_ for p_ in plans if p_[0][0] >= 0 and p_[0][3] <= 300][: (12 if quick else 400)]:
+        par = ("union", ("range", a1, b1), ("range", a2, b2))
+        cut = ("range", lo, hi)
+        if legal(par, nonneg) and legal(cut, C.eval_tree(par, nonneg)):
+            out.append((rng.choice(["OCTET STRING", "IA5String", "SEQUENCE OF"]), [[(par, False, None)], [(cut, False, None)]], "split-parent"))
+    # sizes whose bounds sit on the 64K edge of the constrained length form (X.691 11.9.3.3)
+    for lo, hi in ((0, 65535), (1, 65535), (0, 65536), (1, 65536), (2, 65536), (65535, 65536), (65536, 65536), (65535, 65537), (1, 65537), (65537, 65537)):
+        for kind in (("OCTET STRING", "SEQUENCE OF") if quick else ("OCTET STRING", "IA5String", "SEQUENCE OF", "BIT STRING")):
+            tr = ("range", lo, hi) if lo != hi else ("val", lo)
+            if legal(tr, nonneg):
+                out.append((kind, [[(tr, False, None)]], "size-64k-edge"))
     # random trees over 64-bit / 64K boundary values
     for i in range(80 if quick else 1500):
         tr = random_tree(rng, BIG_INT, rng.choice([1, 2, 2, 3]))
